@@ -52,6 +52,8 @@ type F struct {
 	// cosmos_proto custom options (C19: custom options survive into the registered descriptor)
 	Scalar  string `json:"scalar"`
 	Accepts string `json:"accepts"`
+	// explicit [json_name = ...] ("" = the default lowerCamelCase form)
+	JSON string `json:"json,omitempty"`
 }
 
 type EV struct {
@@ -272,6 +274,9 @@ func (m *M) toProto(scope string) *descriptorpb.DescriptorProto {
 			Number:   proto.Int32(f.Num),
 			JsonName: proto.String(jsonName(f.Name)),
 			Label:    descriptorpb.FieldDescriptorProto_LABEL_OPTIONAL.Enum(),
+		}
+		if f.JSON != "" {
+			fp.JsonName = proto.String(f.JSON)
 		}
 		switch f.Card {
 		case "map":
@@ -776,10 +781,18 @@ func Cross() []*File {
 	acct.Accepts = "verif.opt.Account"
 	amt := rep("amounts", 3, "string")
 	amt.Scalar = "cosmos.Int"
+	// explicit json_name options: identical to the snake_case field name, a free-form one, and one
+	// that differs from the default only in case -- the registered descriptor keeps each verbatim
+	keepSnake := one("account_id", 4, "uint64")
+	keepSnake.JSON = "account_id"
+	custom := one("display_name", 5, "string")
+	custom.JSON = "@label"
+	upper := one("chain_id", 6, "string")
+	upper.JSON = "ChainId"
 	opt := &File{Name: "verif/opt/opt.proto", Pkg: "verif.opt", GoPkg: "opt", Group: "opt", Tags: []string{"options"},
 		Deps: []string{"cosmos_proto/cosmos.proto", "google/protobuf/any.proto", "google/protobuf/descriptor.proto"},
 		Exts: ExtSet("opt"),
-		Msgs: []M{{Name: "WithOptions", Implements: []string{"verif.opt.Account", "verif.opt.Other"}, Fields: []F{addr, acct, amt}}}}
+		Msgs: []M{{Name: "WithOptions", Implements: []string{"verif.opt.Account", "verif.opt.Other"}, Fields: []F{addr, acct, amt, keepSnake, custom, upper}}}}
 	// a file that declares only a service (its messages live in xa.proto)
 	xasvc := &File{Name: "verif/xa/xasvc.proto", Pkg: "verif.xa", GoPkg: "xa", Group: "x", Tags: []string{"cross"}, Deps: []string{"verif/xa/xa.proto"},
 		Svcs: []Svc{{Name: "Solo", RPCs: []RPC{{Name: "Ping", In: ".verif.xa.Leaf", Out: ".verif.xa.Leaf"}}}}}
